@@ -147,7 +147,7 @@ def strategy(tier):
     from .c04 import glide_ladder
 
     mx = 8 if tier == "quick" else 12
-    return st.one_of(
+    return G.with_options(st.one_of(
         G.gcc_problem(max_rows=12),
         G.gcc_problem(max_rows=12, isothermal_utils=True),
         glide_ladder(tier),
@@ -157,7 +157,7 @@ def strategy(tier):
         G.problem(max_streams=mx),
         G.problem(min_streams=2, max_streams=6, shape="mixed", iso_share=0.4),
         G.problem(min_streams=2, max_streams=mx, shape="mixed", with_utilities=False),
-    )
+    ))
 
 
 PARTS = [Part("service", eval_case, {"quick": 1500, "thorough": 40000}, strategy=strategy, min_nontrivial={"quick": 300, "thorough": 6000})]
